@@ -1,8 +1,9 @@
 PROP = {'id': 'C16',
  'level': 'proof',
- 'functions': ['JobSubmitter.submit_jobs', 'JobSubmitter._handle_completion', 'JobRunner.run_jobs_v', 'JobRunner._run_jobs', 'Cluster.mark_complete'],
+ 'functions': ['JobSubmitter.submit_jobs', 'JobSubmitter._handle_completion', 'JobRunner.run_jobs_v', 'JobRunner._run_jobs', 'Cluster.mark_complete',
+               'HpcSubmitter._make_async_submitter'],
  'native': ['JobSubmitter._handle_completion', 'JobRunner.run_jobs_v', 'HpcSubmitter.run'],
- 'records': ['JobSubmitter', 'JobRunner', 'JobConfiguration', 'Cluster'],
+ 'records': ['JobSubmitter', 'JobRunner', 'JobConfiguration', 'Cluster', 'HpcSubmitter'],
  'min_obligations': 500,
  'assumptions': ['ghost event log: the boundary contracts of write_results_summary, run_command / check_run_command (with env), Cluster.mark_complete and '
                  'JobRunner._run_jobs append their tag; the log is ghost state, its bookkeeping clauses are assumed by callers and defined (not checked) at '
